@@ -163,6 +163,7 @@ fn main() {
     let ctx = match id.as_str() {
         "C03" => ctx.with_budget(70, 3000),
         "C16" => ctx.with_budget(50, 1500),
+        "C13" => ctx.with_budget(45, 3600),
         "C02" | "C04" | "C17" | "C05" | "C10" | "C19" => ctx.with_budget(75, 1800),
         _ => ctx,
     };
